@@ -8,8 +8,11 @@ and through ``multiplex.tree``, ``filtered.tree``, ``misc.caching_repo`` and
 any candidate pruning).
 """
 
+import functools
 import itertools
 from operator import itemgetter
+
+from verif import ref
 
 PROPERTY = "C08"
 LEVEL = "exploration"
@@ -24,7 +27,8 @@ RULE = (
     "wrapper or both; VersionMatch; atoms incl. a blocker; AlwaysTrue/False; And/Or/exactly-one/at-most-one nodes "
     "with negate, arity 1-3 and nesting depth 2; Negate wrappers) and every tree is queried against every repository "
     "of a universe of in-memory repositories (all small subsets of 3 categories x 3 packages x 2 versions, plus the "
-    "full ones) in every query mode; the result multiset/order is compared with the brute-force filter. A class is "
+    "full ones; a case-insensitive universe; a universe of versions whose string order differs from version order) "
+    "in every query mode; the result multiset/order is compared with the brute-force filter. A class is "
     "(top-level node kind, how the candidate set was pruned on the full repository) plus the match-none/some/all "
     "outcome; distinct_nontrivial counts classes observed."
 )
@@ -37,16 +41,18 @@ ASSUMPTIONS = [
     "repositories larger than the bound (see bounds) other than the full universe are not covered",
 ]
 BOUNDS = {
-    "quick": "universe 3 cats x 3 pkgs x 2 versions: all repos with <=1 package + 10 fixed larger ones incl. all-version-1 and full (29 repos); 9166 restriction trees (depth<=2) + 458 case-insensitive trees on all 16 repos of a 2x2x1 universe; 5 core query modes on every repo, 7 wrapper modes on 5 repos, 4 stack modes on 5 repos x 3 partners x both orders",
-    "thorough": "same universe: all repos with <=2 packages + the same larger ones (180 repos); 41454 restriction trees (depth<=2, arity<=3, 3-leaf trees over 7 leaves with exactly-one/at-most-one inner nodes, 4-leaf trees with all node negations) + the 458 case-insensitive trees; modes as quick",
+    "quick": "universe 3 cats x 3 pkgs x 2 versions: all repos with <=1 package + 10 fixed larger ones incl. all-version-1 and full (29 repos); 5814 restriction trees (depth<=2; depth-2 trees over 4 leaves / 3 leaves for the 4-leaf shapes) + 458 case-insensitive trees on all 16 repos of a 2x2x1 universe + a version-order universe (versions 1_rc1 1 1_p1 1.2 1.9 1.10 9 10 whose string order differs from PMS order: all pairs/triples of one package in scrambled insertion order, 87 repos x 18 restrictions, expected order from verif.ref.pms_ver_cmp); 5 core query modes on every repo, 7 wrapper modes on 4-5 repos, 4 stack modes on those x 3-4 partners x both orders",
+    "thorough": "same universes: all repos with <=2 packages + the same larger ones (180 repos); 41454 restriction trees (depth<=2, arity<=3, 3-leaf trees over 7 leaves with exactly-one/at-most-one inner nodes, 4-leaf trees over 4 leaves with all node negations) + the case-insensitive and version-order universes as quick; modes as quick",
 }
 
 # ----------------------------------------------------------------------------------------------
-# universes (the canonical order of CPVS is the reference sort order: category, package, version)
+# universes (expected orders are always computed with _refkey: category, package, PMS version order)
 
 UNIVERSES = {
     "main": (("a", "ab", "b"), ("p", "pq", "q"), ("1", "2")),
     "ci": (("A", "a"), ("P", "p"), ("1",)),
+    # versions whose string order differs from their version order (reference order is the one listed)
+    "ver": (("a",), ("p", "q"), ("1_rc1", "1", "1_p1", "1.2", "1.9", "1.10", "9", "10")),
 }
 
 
@@ -82,6 +88,18 @@ def repos_of(tier, uni):
         for n in range(len(cpvs) + 1):
             out.extend(itertools.combinations(cpvs, n))
         return out
+    if uni == "ver":
+        # every pair and triple of versions of one package (listed alternately ascending / descending so that
+        # no insertion order happens to be the sorted one), a two-package mix, the full universe (descending) last
+        ap = [x for x in cpvs if x[1] == "p"]
+        out = []
+        for n in (2, 3):
+            for i, c in enumerate(itertools.combinations(ap, n)):
+                out.append(c if i % 2 else c[::-1])
+        out.append(tuple(sorted(ap, key=lambda t: t[2])))  # string order
+        out.append(tuple(x for x in cpvs if x[2] in ("10", "9", "1.10", "1.9"))[::-1])
+        out.append(tuple(cpvs)[::-1])
+        return out
     maxn = 1 if tier == "quick" else 2
     out = []
     for n in range(maxn + 1):
@@ -97,6 +115,13 @@ def wrapper_repos(uni):
     cpvs = cpvs_of(uni)
     if uni == "ci":
         return [(), (cpvs[0],), (cpvs[1], cpvs[2]), tuple(cpvs)]
+    if uni == "ver":
+        return [
+            (("a", "p", "10"), ("a", "p", "9")),
+            (("a", "p", "1.10"), ("a", "p", "1.9"), ("a", "p", "1.2")),
+            (("a", "p", "1_p1"), ("a", "p", "1"), ("a", "p", "1_rc1"), ("a", "q", "10"), ("a", "q", "9")),
+            tuple(cpvs)[::-1],
+        ]
     return [
         (),
         (("a", "p", "1"),),
@@ -110,6 +135,8 @@ def stack_partners(uni):
     cpvs = cpvs_of(uni)
     if uni == "ci":
         return [(), (cpvs[0],), tuple(cpvs)]
+    if uni == "ver":
+        return [(), (("a", "p", "10"), ("a", "p", "1.9")), (("a", "p", "1.10"), ("a", "p", "1"), ("a", "q", "9")), tuple(cpvs)[::-1]]
     return [(), (("a", "p", "1"), ("a", "p", "2")), tuple(cpvs)]
 
 
@@ -158,6 +185,8 @@ def core_leaves(uni, size):
     p_p, p_p_w, p_p_v = leaf("pkg", "exact", "p"), leaf("pkg", "exact", "p", 0, 1), leaf("pkg", "exact", "p", 1, 0)
     p_pq, p_suf, p_suf_w = leaf("pkg", "exact", "pq"), leaf("pkg", "suffix", "q"), leaf("pkg", "suffix", "q", 0, 1)
     ver, at, tr = ["ver", "=", "1", 0], ["atom", "b/q"], ["true"]
+    if size == 3:
+        return [c_a, c_a_w, p_p]
     if size == 4:
         return [c_a, c_a_w, p_p, p_p_w]
     if size == 5:
@@ -175,6 +204,17 @@ def restrictions_of(tier, uni):
     key = (tier, uni)
     if key in _restr_cache:
         return _restr_cache[key]
+    if uni == "ver":
+        c_a, p_p, p_q = leaf("cat", "exact", "a"), leaf("pkg", "exact", "p"), leaf("pkg", "exact", "q")
+        out = [
+            ["true"], c_a, p_p, leaf("pkg", "prefix", "p"), leaf("pkg", "exact", "p", 1, 0),
+            ["atom", "a/p"], ["atom", ">=a/p-1.9"], ["atom", "<a/p-10"], ["atom", "~a/p-1"],
+            ["ver", ">=", "1.9", 0], ["ver", "=", "1.10", 1], ["ver", "<", "1_p1", 0],
+            ["and", 0, [c_a, p_p]], ["or", 0, [p_p, p_q]], ["and", 0, [p_p, ["ver", ">=", "1.2", 0]]],
+            ["or", 0, [["atom", "a/p"], ["atom", "a/q"]]], ["not", ["false"]], ["and", 1, [p_q]],
+        ]
+        _restr_cache[key] = out
+        return out
     L = all_leaves(uni)
     kinds4 = ("and", "or", "one", "amo")
     out = []
@@ -209,7 +249,7 @@ def restrictions_of(tier, uni):
         for neg in (0, 1):
             out.extend([k, neg, [x, y, z]] for x in C5 for y in C5 for z in C5)
     # depth 2, three leaves: outer(inner(x,y), z) and outer(z, inner(x,y))
-    C3 = C5 if tier == "quick" else core_leaves(uni, 7)
+    C3 = core_leaves(uni, 4) if tier == "quick" else core_leaves(uni, 7)
     inner_kinds = ("and", "or") if tier == "quick" else kinds4
     for ok in ("and", "or"):
         for oneg in (0, 1):
@@ -222,7 +262,7 @@ def restrictions_of(tier, uni):
                                 out.append([ok, oneg, [inner, z]])
                                 out.append([ok, oneg, [z, inner]])
     # depth 2, four leaves: outer(inner1(x,y), inner2(z,w))
-    C4 = core_leaves(uni, 4)
+    C4 = core_leaves(uni, 3 if tier == "quick" else 4)
     negs = ((0, 0, 0),) if tier == "quick" else tuple(itertools.product((0, 1), repeat=3))
     for ok in ("and", "or"):
         for ik1 in ("and", "or"):
@@ -325,8 +365,19 @@ def _ucpv(t):
     return o
 
 
+_verkeys = {}
+
+
+def _verkey(v):
+    """Sort key for a version string: PMS order from verif.ref (never pkgcore's own comparison)."""
+    k = _verkeys.get(v)
+    if k is None:
+        k = _verkeys[v] = functools.cmp_to_key(ref.pms_ver_cmp)(v)
+    return k
+
+
 def _refkey(t):
-    return (t[0], t[1], int(t[2])) if len(t) == 3 else t
+    return (t[0], t[1], _verkey(t[2])) if len(t) == 3 else t
 
 
 def mk_repo(cpvs):
@@ -543,7 +594,7 @@ CHUNK = {"quick": 40, "thorough": 120}
 
 def tasks(tier):
     out = []
-    for uni in ("main", "ci"):
+    for uni in ("main", "ci", "ver"):
         n = len(restrictions_of(tier, uni))
         ch = CHUNK[tier]
         out += [(tier, uni, lo, min(lo + ch, n)) for lo in range(0, n, ch)]
